@@ -201,19 +201,20 @@ def wave_case(res, case):
     actrl = np.zeros((nlines + 3, 3), dtype=np.int32); actrl[:, 0] = -1
     for l in range(nlines): actrl[l] = (l % 2, 1 + l % 3, 2 if l % 2 else -3)      # positive and negative weights
 
-    def run(reuse=False, strip=False, cuda=False, alloc=None, perm=None, k=None, dl=delays, mode=None, seed=1, a_ctrl=None, datasets=None):
+    def run(reuse=False, strip=False, cuda=False, alloc=None, perm=None, k=None, dl=delays, mode=None, seed=1, a_ctrl=None, datasets=None, late_ctl=False):
         alloc = alloc or n
         sim = W.make_sim(c, dl, alloc, caps=caps, reuse=reuse, strip=strip, cuda=cuda, a_ctrl=a_ctrl)
         if mode is not None:
             if np.ndim(mode): sim.simctl_int[1, :n] = mode
             else: sim.simctl_int[1] = mode
-            if datasets is not None: sim.simctl_int[0, :n] = datasets
+            if datasets is not None: sim.simctl_int[0, :n] = 0 if late_ctl else datasets
         else:
             seed = 0
         p = np.arange(n) if perm is None else np.asarray(perm)
         for kk, pos in enumerate(ipos + spos):
             sim.s[0, pos, :n] = init[kk][p]; sim.s[1, pos, :n] = tt[kk][p]; sim.s[2, pos, :n] = fin[kk][p]
         sim.s_to_c()
+        if late_ctl and datasets is not None: sim.simctl_int[0, :n] = datasets      # the selection is made after the stimuli were applied
         before = np.array(sim.c, copy=True)
         if k is None: sim.c_prop(seed=seed)
         else: sim.c_prop(sims=k, seed=seed)
@@ -369,7 +370,7 @@ def wave_case(res, case):
     for variant in range(2 if tier == 'quick' else 4):
         sel = (np.arange(n) * (variant + 1) + variant + rot) % 3
         cuda = bool(variant % 2)
-        sim, _ = run(dl=d3, mode=1, datasets=sel.astype(np.int32), seed=variant + 1, cuda=cuda)
+        sim, _ = run(dl=d3, mode=1, datasets=sel.astype(np.int32), seed=variant + 1, cuda=cuda, late_ctl=True)
         res.evals += 1
         got = ports(sim)
         if obs:
